@@ -123,4 +123,15 @@ def viewPick (vs : List Set) (internal : Bool) (f : Fam) (a : Nat) : Option Nat 
     | v :: t, i => if v.contains f a then some i else go t (i + 1)
   go vs 1
 
+/-- What `views.ServeDNS` does with a query of type `qt`: the first view
+containing the client decides; it answers (returning its index) iff it holds a
+record of the queried type, otherwise the query falls through — no later view
+is consulted (the `break` in the code). `types i` are the record types view
+`i` (from 1) holds for the queried name. -/
+def viewAnswer (vs : List Set) (types : List (List Nat)) (internal : Bool) (f : Fam) (a qt : Nat) :
+    Option Nat :=
+  match viewPick vs internal f a with
+  | none => none
+  | some i => if (types.getD (i - 1) []).contains qt then some i else none
+
 end SdnsVerif.Model.IPSet
